@@ -507,7 +507,7 @@ func infoOf(name string, n *inode) *fileInfo {
 		sz = int64(len(n.target))
 	}
 	if n.isDir() {
-		sz = int64(len(n.children)) * 32
+		sz = 4096 // constant: directory sizes are implementation-specific and not judged
 	}
 	return &fileInfo{name: name, size: sz, mode: n.mode, mtime: n.mtime, sys: Sys{Ino: n.ino, Uid: n.uid, Gid: n.gid}}
 }
